@@ -45,9 +45,9 @@ def _is_linear_in(x, atoms):
 def r04_1(ctx):
     rep, model = ctx.rep, ctx.model
     rep.rule("R04.1", "exact covariance of the children of a split == diag(l, l/12, r, r/12)")
-    for have_H in (True, False):
-        L = bk.eval_split(model, have_H, True)
-        R = bk.eval_split(model, have_H, False)
+    for have_H, halfway in ((True, False), (False, False), (True, True), (False, True)):
+        L = bk.eval_split(model, have_H, True, halfway=halfway)
+        R = bk.eval_split(model, have_H, False, halfway=halfway)
         fi = L["fi"]
         rep.analysed(fi)
         l, r = L["l"], L["r"]
@@ -64,7 +64,7 @@ def r04_1(ctx):
         for a in noises:
             var[a] = Rat.const(1)
         lin_ok = all(_is_linear_in(v, set(var)) for v in vals.values())
-        tag = "H" if have_H else "noH"
+        tag = ("H" if have_H else "noH") + ("/dyadic" if halfway else "")
         rep.check(lin_ok, "R04.1", astq.loc(fi), f"{fi.key}::R04.1::linear::{tag}",
                   "a child value is not a linear form in the parent's (W, H) and the node's unit normals: it is not "
                   "Gaussian", "children are linear in (W, H, noises)")
@@ -84,10 +84,10 @@ def r04_1(ctx):
                           f"Cov({a}, {b}) = `{nf.reduce_sqrt(c)}` but Brownian motion requires `{e}` "
                           f"(W over [s,s+l] ~ N(0,l), H ~ N(0,l/12), all four independent)",
                           f"Cov({a},{b}) == {e}")
-    ctx.floor("R04.1", 14)
+    ctx.floor("R04.1", 28)
 
 
-def eval_init(model, W=None, H=None, halfway=False, dt=None):
+def eval_init(model, W=None, H=None, halfway=False, dt=None, entropy="symbol"):
     fi = model.func(BI, "BrownianInterval.__init__")
     bcls = model.cls(BI, "BrownianInterval")
     T0, T1 = nf.sym("T0", True), nf.sym("T1", True)
@@ -95,7 +95,7 @@ def eval_init(model, W=None, H=None, halfway=False, dt=None):
     hooks = bk.BrownianHooks(decisions)
     it = Interp(model, hooks)
     me = Obj("bm", cls=bcls)
-    kwargs = dict(t0=T0, t1=T1, size=bk.SIZE, entropy=nf.sym("ENTROPY", True), tol=Fraction(0),
+    kwargs = dict(t0=T0, t1=T1, size=bk.SIZE, entropy=nf.sym("ENTROPY", True) if entropy == "symbol" else entropy, tol=Fraction(0),
                   pool_size=nf.sym("POOL", True), halfway_tree=halfway, levy_area_approximation="space-time",
                   W=W, H=H, dt=dt)
     it.call_function(fi, [me], kwargs)
